@@ -1584,7 +1584,9 @@ def run_state_stream(ctx):
             for k, v in model.items():
                 if k in real and real[k] != v:
                     bad.append("%s[%r]: real %s, mirror %s" % (which, k, real[k], v))
-                if k not in real and v != "flat" and not (k == "_most_recent_element"):
+                # a key the pickled state does not carry at all cannot make pickling walk the tree: which bookkeeping fields
+                # __getstate__ keeps is free (free-behaviour round: the parser's scratch fields dropped from the state)
+                if k not in real and v != "flat" and not (k == "_most_recent_element") and which == "__dict__":
                     bad.append("%s[%r]: absent in the real dict, mirror %s" % (which, k, v))
             for k, v in real.items():
                 if k not in model and v == "tree":
